@@ -37,7 +37,7 @@ fn cli_order(t: &Tree) -> Tree {
 fn corpus(seed: u64, n: u64, max_nodes: usize) -> Vec<(String, Tree)> {
     let mut games: Vec<(String, Tree)> = zoo::all()
         .into_iter()
-        .filter(|(name, _)| ["pennies", "kuhn", "rare", "dominated", "lonely", "flat", "chain3", "chain4", "shared4"].contains(&name.as_str()))
+        .filter(|(name, _)| ["pennies", "kuhn", "rare", "dominated", "lonely", "flat", "chain3", "chain4", "shared4", "twodice"].contains(&name.as_str()))
         .collect();
     let mut rng = Rng::new(seed ^ 0xc15);
     for id in 0..n {
